@@ -735,6 +735,11 @@ class Interp:
                     return Const(l.v + r.v)
                 except Exception:
                     pass
+        if isinstance(e.op, ast.Mult):
+            # sequence repetition by a constant count: [x] * 3, 3 * (a, b)
+            for seq, cnt in ((l, r), (r, l)):
+                if isinstance(seq, (ListLit, TupS)) and not getattr(seq, "pyname", None) and isinstance(cnt, Const) and isinstance(cnt.v, int) and not isinstance(cnt.v, bool) and cnt.v * len(seq.elts) <= 100000:
+                    return type(seq)(list(seq.elts) * max(cnt.v, 0))
         if isinstance(l, Const) and isinstance(r, Const):
             try:
                 ops = {ast.Sub: lambda a, b: a - b, ast.Mult: lambda a, b: a * b, ast.FloorDiv: lambda a, b: a // b, ast.Mod: lambda a, b: a % b, ast.Pow: lambda a, b: a ** b, ast.Div: lambda a, b: a / b,
